@@ -1,9 +1,9 @@
 SPECIFICATION Spec
 CONSTANTS
-  MaxOps = 3
+  MaxOps = 4
   Groups = {"list", "listns", "tree", "arr", "mat", "ds", "memo", "seed"}
   Big = FALSE
-  Focus = "D"
+  Focus = "M"
   Wide = TRUE
   ShipDsAdd = FALSE
   ShipMatPartial = FALSE
